@@ -1,15 +1,17 @@
 //! C17: I/O faults end the run cleanly.
 //!
-//! Oracles on the real code (P-level): the run terminates, at most one `error:` line, no panic /
-//! crash report, clean exit status.  F-level: the Lean model (AgModel/Sched.lean via `SCHED`)
-//! predicts, for the same fault, the bytes that got out, the number of error lines and whether a
-//! thread panics; Props/C17.lean proves what holds for every schedule and gives the
-//! counterexamples that are reproduced here as classed findings:
-//!   C17/json-writer-expect-panic             printer.rs:249  to_writer(..).expect("failed to format")
-//!   C17/read-error-unwrap-panic              lib.rs:283      read_until(..).unwrap()   (`--file <directory>`)
+//! Oracles on the real code (P-level): the run terminates, at most one `error:` line per fault, no
+//! panic / crash report, clean exit status.  F-level: the Lean model (AgModel/Sched.lean via
+//! `SCHED`) predicts, for the same fault, the bytes that got out and the number of error lines of
+//! the renderer and of the reader; Props/C17.lean proves what holds for every schedule
+//! (`C17_no_panic`, `C17_at_most_one_error_line`, `C17_read_error_clean`, …) and gives the
+//! counterexample that is reproduced here as the listed open finding:
 //!   C17/unbounded-run-after-consumer-closed  design-level: the reader learns of a closed output
-//!                                            only by a failing send; no row sent ⇒ never
-use super::c15::{ensure_binary, model_sched, run_proc, split_rows, start, wait_until, Feed, Gate, Sink, PATIENCE};
+//!                                            only by a failing send; no row sent ⇒ never  (verdict `known`)
+//! Repaired, now checked as ordinary oracles (a regression is a `viol` with the old class):
+//!   C17/json-writer-expect-panic   /repo 1b6cc1e  (JsonPrinter `.expect` on a write error)
+//!   C17/read-error-unwrap-panic    /repo 566c084  (`read_until(..).unwrap()`, `--file <directory>`)
+use super::c15::{ensure_binary, model_sched, run_proc, split_rows, start, Feed, Gate, Sink};
 use crate::enc::hexb;
 use crate::imp;
 use crate::Ctx;
@@ -44,16 +46,17 @@ impl Witnesses {
             None => false,
         }
     }
-    /// report a classed finding: the first witnesses of a class in full, the rest compactly
+    /// report a reproduced witness of the listed open finding `class` (verdict `known`):
+    /// the first witnesses in full, the rest compactly
     fn finding(&mut self, ctx: &mut Ctx, fam: &str, key: &str, class: &str, info: serde_json::Value) {
         let n = self.reported.entry(class.to_string()).or_insert(0);
         *n += 1;
         if *n <= 2 {
             let mut i = info;
             i["class"] = json!(class);
-            ctx.case(fam, key, "viol", i);
+            ctx.case(fam, key, "known", i);
         } else {
-            ctx.case(fam, key, "viol", json!({"class": class, "what": info["what"], "case": info["case"], "note": "further witness of the same class"}));
+            ctx.case(fam, key, "known", json!({"class": class, "what": info["what"], "case": info["case"], "note": "further witness of the same class"}));
         }
     }
 }
@@ -99,7 +102,7 @@ fn model_table(q: &str, mode: &str, lines: &[Vec<u8>], agg: bool) -> Option<(&'s
     if k != rows.len() {
         return None;
     }
-    Some((if mode == "json" { "json" } else { "rec" }, table, f))
+    Some(("rec", table, f))
 }
 
 fn wide_lines(n: usize, width: usize) -> Vec<Vec<u8>> {
@@ -186,8 +189,8 @@ fn check_sink_faults(ctx: &mut Ctx, w: &mut Witnesses) {
                     let got = sink.bytes();
                     // the model's prediction
                     let m = model_sched(ctx, variant, 1000, &table, &[], &[all.clone()], Some(k), None, ctx.seed ^ (k as u64 * 7919));
-                    let model_panics = m.rend == "panicked" || m.reader == "panicked";
-                    let f_ok = m.ok && m.written == hexb(&got) && m.errs == o.error_lines && model_panics == o.panicked.is_some() && m.reader == "done";
+                    let model_panics = m.rend == "panicked" || m.reader == "panicked" || m.join_err;
+                    let f_ok = m.ok && m.written == hexb(&got) && m.errs + m.rd_errs == o.error_lines && model_panics == o.panicked.is_some() && m.reader == "done";
                     if !f_ok {
                         ctx.case("sink-fault", &key, "fdis", json!({"what": "model and implementation disagree on (bytes written, error lines, panic) for this fault offset",
                             "impl": {"written_hex": hexb(&got[..got.len().min(200)]), "written_len": got.len(), "error_lines": o.error_lines, "panic": o.panicked},
@@ -196,9 +199,8 @@ fn check_sink_faults(ctx: &mut Ctx, w: &mut Witnesses) {
                     }
                     // P-level
                     if let Some(p) = &o.panicked {
-                        w.finding(ctx, "sink-fault", &key, "C17/json-writer-expect-panic",
-                            json!({"what": "a write error inside a row in `-o json` record output panics the renderer thread (printer.rs:249 to_writer(..).expect) instead of ending with an error line",
-                                   "panic": p, "stderr": o.stderr, "case": info, "input_hex": hexb(&all[..all.len().min(600)])}));
+                        ctx.case("sink-fault", &key, "viol", json!({"class": "C17/json-writer-expect-panic", "what": "a write error panics a thread instead of ending the run with an error line",
+                            "panic": p, "stderr": o.stderr, "case": info, "input_hex": hexb(&all[..all.len().min(600)])}));
                         continue;
                     }
                     if o.error_lines > 1 || got != f[..k.min(f.len())] {
@@ -286,9 +288,18 @@ fn check_endless_inproc(ctx: &mut Ctx, w: &mut Witnesses) {
 // ------------------------------------------------------------------------------------------------
 
 fn check_read_faults(ctx: &mut Ctx, w: &mut Witnesses) {
-    let lines = input_lines(8);
+    let nl = if ctx.thorough() || w.only.is_some() { 14 } else { 8 };
+    let lines = input_lines(nl);
     let mut job = 0;
-    for (q, mode, agg) in [("* | json", "logfmt", false), ("* | json", "json", false), ("* | json | count", "logfmt", true)] {
+    for (q, mode, agg) in [
+        ("* | json", "logfmt", false),
+        ("* | json", "json", false),
+        ("* | json", "legacy", false),
+        ("* | json | where n >= 3", "format={k}{n}", false),
+        ("* | json | limit -2", "logfmt", false),
+        ("* | json | count", "logfmt", true),
+        ("* | json | count by k", "json", true),
+    ] {
         for j in 0..=lines.len() {
             for partial in [false, true] {
                 job += 1;
@@ -309,30 +320,36 @@ fn check_read_faults(ctx: &mut Ctx, w: &mut Witnesses) {
                 let info = json!({"query": q, "mode": mode, "error_at_line": j, "inside_a_line": partial});
                 let o = match run.wait(Duration::from_secs(30)) {
                     None => {
-                        ctx.case("read-fault", &key, "viol", json!({"class": "C17/no-termination-finite-input", "what": "read error: process() neither returned nor panicked within 30 s", "case": info}));
+                        ctx.case("read-fault", &key, "viol", json!({"class": "C17/no-termination-finite-input", "what": "read error: process() did not return within 30 s", "case": info}));
                         continue;
                     }
                     Some(o) => o,
                 };
-                // expected rows of the lines before the error (record pipelines; the detached renderer drains the channel)
+                // a clean stop: the rows of the lines read before the error, as if the input had ended there
                 let before: Vec<u8> = lines[..j].concat();
-                let expect = if agg { vec![] } else { imp::run(q, &before, mode, 10).stdout };
-                let _ = wait_until(PATIENCE, || sink.len() >= expect.len());
-                let rows = split_rows(&expect);
-                let table: Vec<Option<Vec<u8>>> = if agg { vec![None; j] } else { rows.iter().map(|r| Some(r.clone())).collect() };
-                let m = model_sched(ctx, if agg { "agg" } else if mode == "json" { "json" } else { "rec" }, 1000, &table, &[], &[before.clone()], None, Some(j), ctx.seed ^ j as u64);
-                let model_panics = m.reader == "panicked";
-                if !m.ok || model_panics != o.panicked.is_some() || (!agg && m.written != hexb(&sink.bytes())) {
-                    ctx.case("read-fault", &key, "fdis", json!({"what": "model and implementation disagree on a read error", "impl_panic": o.panicked, "impl_written": sink.len(),
-                        "model": m.raw.chars().take(300).collect::<String>(), "case": info}));
+                let expect = imp::run(q, &before, mode, 10).stdout;
+                let got = sink.bytes();
+                if o.panicked.is_some() || o.error_lines != 1 || got != expect {
+                    ctx.case("read-fault", &key, "viol", json!({"class": "C17/read-error-unwrap-panic", "what": "a read error must end the run with exactly one error line, no panic, and the output of the lines read before it",
+                        "panic": o.panicked, "error_lines": o.error_lines, "stderr": o.stderr, "expected": String::from_utf8_lossy(&expect), "got": String::from_utf8_lossy(&got), "case": info}));
                     continue;
                 }
-                match &o.panicked {
-                    Some(p) => w.finding(ctx, "read-fault", &key, "C17/read-error-unwrap-panic",
-                        json!({"what": "an io::Error from the input is unwrapped (lib.rs:283 read_until(..).unwrap()): panic instead of an error message and a clean stop",
-                               "panic": p, "case": info})),
-                    None => ctx.case("read-fault", &key, "pass", json!({"case": info, "error_lines": o.error_lines})),
+                // F-level: the model with a read fault at line j
+                if q.contains("limit -") {
+                    // tail rows come out of the drain loop
+                    let m = model_sched(ctx, "rec", 1000, &vec![None; j], &split_rows(&expect), &[before.clone()], None, Some(j), ctx.seed ^ j as u64);
+                    if !m.ok || m.written != hexb(&got) || m.rd_errs != 1 || m.errs != 0 || m.reader != "done" {
+                        ctx.case("read-fault", &key, "fdis", json!({"what": "model and implementation disagree on a read error", "model": m.raw.chars().take(300).collect::<String>(), "case": info}));
+                        continue;
+                    }
+                } else if let Some((variant, table, _)) = model_table(q, mode, &lines[..j], agg) {
+                    let m = model_sched(ctx, variant, 1000, &table, &[], &[before.clone()], None, Some(j), ctx.seed ^ j as u64);
+                    if !m.ok || m.written != hexb(&got) || m.rd_errs != 1 || m.errs != 0 || m.reader != "done" {
+                        ctx.case("read-fault", &key, "fdis", json!({"what": "model and implementation disagree on a read error", "model": m.raw.chars().take(300).collect::<String>(), "case": info}));
+                        continue;
+                    }
                 }
+                ctx.case("read-fault", &key, "pass", json!({"case": info, "error_lines": o.error_lines, "bytes": got.len()}));
             }
         }
     }
@@ -365,7 +382,7 @@ fn check_binary(ctx: &mut Ctx, w: &mut Witnesses) {
         endless: bool,
         input: Vec<u8>,
         close_after: Option<usize>,
-        /// what the model says: "exits", "endless", "panic-json", "panic-read", "usage"
+        /// what the model says: "exits", "endless", "read-error", "usage"
         expect: &'static str,
     }
     let mut jobs: Vec<Job> = vec![];
@@ -398,10 +415,10 @@ fn check_binary(ctx: &mut Ctx, w: &mut Witnesses) {
     }
     // rows larger than stdout's line buffer, -o json
     // rows larger than a pipe buffer: the write is blocked *inside* a row when the consumer goes away
-    jobs.push(Job { name: "closed/record/json-rows-70000B/finite/k=10".into(), args: sv(&["* | json", "-o", "json"]), endless: false, input: big_row_input(60, 70000), close_after: Some(10), expect: "panic-json" });
+    jobs.push(Job { name: "closed/record/json-rows-70000B/finite/k=10".into(), args: sv(&["* | json", "-o", "json"]), endless: false, input: big_row_input(60, 70000), close_after: Some(10), expect: "exits" });
     jobs.push(Job { name: "closed/record/logfmt-rows-70000B/finite/k=10".into(), args: sv(&["* | json", "-o", "logfmt"]), endless: false, input: big_row_input(60, 70000), close_after: Some(10), expect: "exits" });
     // rows larger than stdout's 1 KiB line buffer: whether EPIPE arrives inside a row is a race
-    jobs.push(Job { name: "closed/record/json-rows-5000B/finite/k=10".into(), args: sv(&["* | json", "-o", "json"]), endless: false, input: big_row_input(400, 5000), close_after: Some(10), expect: "panic-json-racy" });
+    jobs.push(Job { name: "closed/record/json-rows-5000B/finite/k=10".into(), args: sv(&["* | json", "-o", "json"]), endless: false, input: big_row_input(400, 5000), close_after: Some(10), expect: "exits" });
     // endless input, nothing (more) to send
     jobs.push(Job { name: "closed/where-false/endless".into(), args: sv(&["* | json | where n > 100000", "-o", "logfmt"]), endless: true, input: block.clone(), close_after: Some(0), expect: "endless" });
     jobs.push(Job { name: "closed/limit-1/endless".into(), args: sv(&["* | json | limit 1", "-o", "logfmt"]), endless: true, input: block.clone(), close_after: Some(3), expect: "endless" });
@@ -409,7 +426,7 @@ fn check_binary(ctx: &mut Ctx, w: &mut Witnesses) {
     // unreadable inputs and invalid command lines
     let dir = scratch_dir();
     jobs.push(Job { name: "file/missing".into(), args: sv(&["*", "--file", "/verif/harness/target/scratch/does-not-exist"]), endless: false, input: vec![], close_after: None, expect: "usage" });
-    jobs.push(Job { name: "file/directory".into(), args: sv(&["*", "--file", &dir]), endless: false, input: vec![], close_after: None, expect: "panic-read" });
+    jobs.push(Job { name: "file/directory".into(), args: sv(&["*", "--file", &dir]), endless: false, input: vec![], close_after: None, expect: "read-error" });
     jobs.push(Job { name: "args/unknown-flag".into(), args: sv(&["*", "--no-such-flag"]), endless: false, input: vec![], close_after: None, expect: "usage" });
     jobs.push(Job { name: "args/output-bogus".into(), args: sv(&["*", "-o", "bogus"]), endless: false, input: vec![], close_after: None, expect: "usage" });
     jobs.push(Job { name: "args/output-format-empty".into(), args: sv(&["*", "-o", "format="]), endless: false, input: vec![], close_after: None, expect: "usage" });
@@ -448,7 +465,7 @@ fn check_binary(ctx: &mut Ctx, w: &mut Witnesses) {
                 } else if o.timed_out {
                     ctx.case("binary", &key, "viol", json!({"class": "C17/no-stop-although-rows-sent", "what": "stdout closed, rows keep being produced, but the binary did not exit within 10 s", "case": info}));
                 } else if o.crashed() && j.args.iter().any(|a| a == "json") {
-                    w.finding(ctx, "binary", &key, "C17/json-writer-expect-panic", json!({"what": "closed stdout with -o json record output: panic instead of a clean stop", "case": info}));
+                    ctx.case("binary", &key, "viol", json!({"class": "C17/json-writer-expect-panic", "what": "closed stdout with -o json record output: panic instead of a clean stop", "case": info}));
                 } else {
                     ctx.case("binary", &key, "viol", json!({"class": "C17/unclean-fault-handling", "what": "closed stdout: crash, more than one error line, or a multi-line report", "case": info}));
                 }
@@ -463,34 +480,12 @@ fn check_binary(ctx: &mut Ctx, w: &mut Witnesses) {
                     ctx.case("binary", &key, "viol", json!({"class": "C17/unclean-fault-handling", "what": "crash on closed stdout", "case": info}));
                 }
             }
-            "panic-json" => {
-                if o.crashed() || o.stdout.is_empty() && o.stderr.contains("failed to format") {
-                    w.finding(ctx, "binary", &key, "C17/json-writer-expect-panic",
-                        json!({"what": "-o json, rows larger than stdout's line buffer, consumer closes the pipe: the write error surfaces inside serde_json::to_writer and is `.expect`ed → panic", "case": info}));
-                } else if clean {
-                    ctx.case("binary", &key, "fdis", json!({"what": "the model predicts the JsonPrinter panic; the binary ended cleanly", "case": info}));
+            "read-error" => {
+                // `--file <directory>`: the first read fails (EISDIR) → one error line, clean end
+                if clean && o.error_lines() == 1 && o.stdout.is_empty() {
+                    ctx.case("binary", &key, "pass", info);
                 } else {
-                    ctx.case("binary", &key, "viol", json!({"class": "C17/unclean-fault-handling", "what": "closed stdout, wide json rows", "case": info}));
-                }
-            }
-            "panic-json-racy" => {
-                if o.crashed() {
-                    w.finding(ctx, "binary", &key, "C17/json-writer-expect-panic",
-                        json!({"what": "-o json, rows larger than stdout's line buffer, consumer closes the pipe: panic in JsonPrinter", "case": info}));
-                } else if clean {
-                    ctx.case("binary", "", "skip", json!({"why": "race not hit: EPIPE arrived at a row boundary", "case": info}));
-                } else {
-                    ctx.case("binary", &key, "viol", json!({"class": "C17/unclean-fault-handling", "what": "closed stdout, wide json rows", "case": info}));
-                }
-            }
-            "panic-read" => {
-                if o.crashed() {
-                    w.finding(ctx, "binary", &key, "C17/read-error-unwrap-panic",
-                        json!({"what": "`--file <directory>`: File::open succeeds, the first read fails with EISDIR and is unwrapped (lib.rs:283) → panic instead of an error message", "case": info}));
-                } else if !o.timed_out && o.status.map(|s| s != 0).unwrap_or(false) && !o.stderr.trim().is_empty() {
-                    ctx.case("binary", &key, "fdis", json!({"what": "the model predicts the read_until unwrap panic; the binary reported an error cleanly", "case": info}));
-                } else {
-                    ctx.case("binary", &key, "viol", json!({"class": "C17/unreadable-input-not-reported", "what": "a directory as input neither failed cleanly nor panicked", "case": info}));
+                    ctx.case("binary", &key, "viol", json!({"class": "C17/read-error-unwrap-panic", "what": "a directory as input must end with one error line and no crash", "case": info}));
                 }
             }
             _ => {
